@@ -29,7 +29,7 @@ type Behaviour struct {
 	CloseOnPieceDone bool `json:"close_on_piece_done,omitempty"`
 	DelayPerBlockMs  int  `json:"delay_per_block_ms,omitempty"` // honest but slow
 	// MetaMode scripts the answers to ut_metadata requests: "" honest, garbage (right size, wrong bytes), wrong-total,
-	// short-piece, long-piece, dup, unrequested, reject, silent, close.
+	// short-piece, long-piece, dup, unrequested, swap-labels, reject, silent, close.
 	MetaMode string `json:"meta_mode,omitempty"`
 	MetaDelayMs int `json:"meta_delay_ms,omitempty"`
 }
@@ -175,6 +175,11 @@ func (s *Server) run() {
 				out.Data = append(out.Data, 'x')
 			case "unrequested":
 				out.Index = m.Index + 1
+			case "swap-labels":
+				// the genuine bytes in the genuine order, but the first two (full-size) blocks carry each other's index
+				if len(s.Info) > 2*16384 && m.Index <= 1 {
+					out.Index = 1 - m.Index
+				}
 			}
 			p.Send(out)
 			if s.B.MetaMode == "dup" {
